@@ -19,7 +19,7 @@ from harness.common import (canon, dec_res, enc_val, ensure_impl_on_path, known_
                             run_impl, same)
 
 GEN_MODULES = ['excelutil', 'arrayfit', 'lookup']
-EXTRA_TARGETS = ['Refuted/C13_scalar_error.vo', 'Refuted/C13_adjacent_ranges.vo']
+EXTRA_TARGETS = ['Refuted/C13_scalar_error.vo']
 EXPLANATION = (
     "fit_to_range is translated from excelutil.py on every run (Gen/arrayfit.v) and proved equal to the "
     "list-level specification fit_spec for every non-empty rectangular result and every target >= 1x1; "
@@ -31,7 +31,10 @@ EXPLANATION = (
     "C13_member_shows_own_element / C13_member_cells / C13_formula_op_member / C13_formula_fun_member hold "
     "for all result shapes, target shapes and member positions; the model is compared with ExcelCompiler on "
     "every cell of every target of the generated workbooks (value side) and on the texts written into the "
-    "member cells (sheet side); the end-to-end oracle stays.")
+    "member cells (sheet side); the end-to-end oracle stays.  C13_range_shows_cells (Proofs/C13Ranges.v): any "
+    "rectangle of a coherent sheet evaluates to a matrix of what its cells show (range_formula as repaired in "
+    "50c2e69); tie: range_formula / sheet_range_value against ExcelCompiler on ranges around two adjacent "
+    "array formulas, with the oracle 'a range shows its cells' own values' on every such range.")
 
 OPS = ['Add', 'Sub', 'Mult', 'Div', 'Pow', 'BitAnd', 'USub', 'Eq', 'NotEq', 'Lt', 'LtE', 'Gt', 'GtE']
 OP_TEXT = {'Add': '+', 'Sub': '-', 'Mult': '*', 'Div': '/', 'Pow': '^', 'BitAnd': '&', 'Eq': '=',
@@ -173,43 +176,9 @@ def _scalar_error_short_circuit(case):
     return (arr(l) and err(r)) or (err(l) and arr(r))
 
 
-ADJACENT_ID = 'C13-adjacent-array-formulas-merged'
-
-
-@known_predicate(ADJACENT_ID)
-def _adjacent_merged(case):
-    """Inert until registered in known_findings.json (the oracle stream that produces it runs only then).
-    One cause: _OpxRange.__new__ (excelwrapper.py 77-87) gives a range the array formula of its top left
-    cell whenever that cell is member (1, 1) and every cell of the range STARTS WITH the same
-    '=CSE_INDEX(<text>' — it does not look at the members' own sizes.  A range that starts at one array
-    formula's top left and runs on into an adjacent array formula whose text starts with the same text
-    (the same formula entered twice, or =A1:B1*2 next to =A1:B1*20) is evaluated as ONE array formula
-    over the larger range: =A1:B1*2 over F10:G10 and over H10:I10 -> evaluate(F10:I10) =
-    (2, 4, #N/A, #N/A) and SUM(F10:I10) = #N/A, while H10, I10 show 2, 4.
-    Model: Model/CseCells.v range_formula; Refuted/C13_adjacent_ranges.v."""
-    return case.get('call') == 'range-over-array-formulas'
-
-
-SUBRANGE_ID = 'C13-inmemory-subrange-typeerror'
-
-
-@known_predicate(SUBRANGE_ID)
-def _inmemory_subrange(case):
-    """Inert until registered in known_findings.json (the oracle stream that produces it runs only then).
-    With a workbook handed over in memory (ExcelCompiler(excel=wb) -> ExcelOpxWrapperNoData) a range whose
-    top left cell is a member of an array formula but that is not taken for the formula's own range (e.g.
-    the second column or the second row of the reference range: =SUM(G10:G11) next to an array formula
-    over F10:G11; or a range from its top left running past it into other cells: F10:G13) cannot be
-    evaluated: _OpxRange.__new__ leaves formula = None and
-    ExcelOpxWrapperNoData.OpxRange.__new__ (excelwrapper.py 376-381) zips over it ->
-    TypeError "'NoneType' object is not iterable".  The same workbook loaded from a file evaluates it
-    cell by cell (12).  Model: range_formula = None -> cell by cell (C13_range_formula_inner)."""
-    return case.get('call') == 'range-inside-array-formula'
-
-
 @known_predicate('C13-empty-marker-text-shown-as-zero')
 def _empty_marker_text(case):
-    """Inert (the generators never produce this text).  eval_func returns 0 for a formula value that is
+    """Exercised by empty_marker() below (one deterministic workbook).  eval_func returns 0 for a formula value that is
     None or equals pycel's blank marker '#EMPTY!' (excelformula.py `ret_val not in (None, EMPTY)`), so a
     member cell whose own element is the TEXT "#EMPTY!" (e.g. ="#EMPTY"&"!" entered over a range) shows 0
     while evaluate(range) shows the text.  Model: Model/CseCells.v eval_formula / shown."""
@@ -434,6 +403,9 @@ def run(ctx):
     # ================================================= 5. which range is an array formula's range
     range_formulas(ctx, fixup)
 
+    # ================================================= 6. the text "#EMPTY!" as an element
+    empty_marker(ctx)
+
 
 def cell_value(ctx):
     """Values a worksheet cell can hold (text that openpyxl would read as a formula is avoided)."""
@@ -645,20 +617,50 @@ def impl_range_formula(comp, ref):
     return (False,)
 
 
+def empty_marker(ctx):
+    """One deterministic workbook: A1 = "#EMPTY", B1 = "x", =A1:B1&"!" entered over F10:G10.  The element
+    of F10 is the TEXT "#EMPTY!" (pycel's blank marker): the range shows it, the member cell shows 0
+    (known finding C13-empty-marker-text-shown-as-zero); the model agrees with the implementation."""
+    from openpyxl import Workbook
+    from openpyxl.worksheet.formula import ArrayFormula
+    from pycel import ExcelCompiler
+    wb = Workbook()
+    ws = wb.active
+    ws['A1'], ws['B1'] = '#EMPTY', 'x'
+    formula = '=A1:B1&"!"'
+    ws['F10'] = ArrayFormula('F10:G10', formula)
+    comp = ExcelCompiler(excel=wb)
+    want = ('#EMPTY!', 'x!')
+    case = dict(call='array-formula', args=[(('#EMPTY', 'x'),), 'BitAnd', '!'], formula=formula, target='F10:G10')
+    got = run_impl(comp.evaluate, 'Sheet!F10:G10')
+    ctx.count(('empty-marker', 'range'), kind='e2e:empty-marker')
+    if got != ('ok', want):
+        ctx.violation(case, "array formula over the target range is not the fitted pointwise result",
+                      impl=got, expected=want)
+    cells = [run_impl(comp.evaluate, f'Sheet!{c}10') for c in 'FG']
+    for j, gm in enumerate(cells):
+        ctx.count(('empty-marker', j), kind='e2e:empty-marker')
+        if gm != ('ok', want[j]):
+            ctx.violation(dict(case, member=f'Sheet!{"FG"[j]}10', element=want[j]),
+                          "member cell does not show its own element", impl=gm, expected=want[j])
+    if ctx.model:
+        m = dec_res(ctx.model.batch([('target_cells', [1, 2, enc_val((want,))])])[0])
+        im = ('ok', (tuple(x[1] for x in cells),)) if all(x[0] == 'ok' for x in cells) else cells[0]
+        if not skip_model(m) and not same(m, im):
+            ctx.divergence(dict(case, call='target-cells'), im, m,
+                           'Model/CseCells.v target_cells on the text "#EMPTY!"')
+
+
 def range_formulas(ctx, fixup):
     """Two array formulas entered over adjacent reference ranges (same text, a text that extends the first,
-    another text), and the ranges of the sheet around them: which of them _OpxRange.__new__ takes for an
-    array formula's own range (model: range_formula), and what such a range evaluates to."""
+    another text), and the ranges of the sheet around them.  Correspondence: which of them
+    _OpxRange.__new__ takes for an array formula's own range (model: range_formula), and what ANY of them
+    evaluates to (model: sheet_range_value over sheet_of).  Oracle (always on; the two defects it found are
+    repaired in 50c2e69): evaluating a range gives at each position what the cell there shows."""
     from openpyxl import Workbook
     from openpyxl.worksheet.formula import ArrayFormula
     from pycel import ExcelCompiler
 
-    # the two oracle streams below produce violations on the unrepaired implementation; they run once the
-    # finding is registered in known_findings.json (or with C13_GATED_ORACLES=1, to see them fail)
-    import os
-    force = os.environ.get('C13_GATED_ORACLES') == '1'
-    oracle_on = force or any(f.get('id') == ADJACENT_ID for f in ctx.findings)
-    subrange_on = force or any(f.get('id') == SUBRANGE_ID for f in ctx.findings)
     rf_calls, rv_calls = [], []
     for rep in range(ctx.n(40, 200)):
         wb = Workbook()
@@ -701,12 +703,14 @@ def range_formulas(ctx, fixup):
                           f"workbook with array formulas does not compile: {type(exc).__name__}")
             continue
         sheet = comp.excel.workbook['Sheet']
-        a = vals if sa != (1, 1) else vals        # A1:A1 is read as a range as well
-        try:
-            res1 = fixup(a, 'Mult', k)
-            enc_val(res1)
+        try:        # what the two formulas' compiled code returns
+            res1 = fixup(vals, 'Mult', k)
+            res2 = {'same': res1, 'extends': fixup(vals, 'Mult', k * 10),
+                    'other': fixup(vals, 'Add', k)}[variant]
+            formulas = [[10, 6, h1, w1, enc_val(f1), enc_val(res1)],
+                        [r2, c2, h2, w2, enc_val(f2), enc_val(res2)]]
         except Exception:      # noqa: BLE001
-            res1 = None
+            formulas = None
         # the ranges around: both reference ranges, the range spanning both, ranges from the first top left
         # of random extent, ranges starting inside
         H, W = (h1, w1 + w2) if horizontal else (h1 + h2, w1)
@@ -722,48 +726,45 @@ def range_formulas(ctx, fixup):
             case = dict(call='range-formula', args=[f1, ref1, f2, ref2], range=ref)
             im = run_impl(impl_range_formula, comp, ref)
             rf_calls.append((case, sheet_cells(sheet, r0, c0, h, w), im))
-            if subrange_on and im == ('ok', (False,)):
-                cells = tuple(tuple(run_impl(comp.evaluate, f'Sheet!{col(c0 + j)}{r0 + i}')
-                                    for j in range(w)) for i in range(h))
-                got = run_impl(comp.evaluate, f'Sheet!{ref}')
-                if all(x[0] == 'ok' for row in cells for x in row):
-                    want = ('ok', squeeze(tuple(tuple(x[1] for x in row) for row in cells)))
-                    if got != want:
-                        ctx.violation(dict(call='range-inside-array-formula', args=[f1, ref1, f2, ref2],
-                                           range=ref),
-                                      "a range inside an array formula's range does not show its cells' values",
-                                      impl=got, expected=want[1])
-            if im == ('ok', (True, f1)) and res1 is not None:
-                got = run_impl(comp.evaluate, f'Sheet!{ref}')
-                rv_calls.append((dict(case, result=canon(res1)), res1, h, w, got))
-                if oracle_on:
-                    cells = tuple(tuple(run_impl(comp.evaluate, f'Sheet!{col(c0 + j)}{r0 + i}')
-                                        for j in range(w)) for i in range(h))
-                    if all(x[0] == 'ok' for row in cells for x in row):
-                        want = ('ok', squeeze(tuple(tuple(x[1] for x in row) for row in cells)))
-                        if got != want:
-                            ctx.violation(dict(call='range-over-array-formulas', args=[f1, ref1, f2, ref2],
-                                               range=ref),
-                                          "a range over array formulas does not show its cells' own values",
-                                          impl=got, expected=want[1])
+            got = run_impl(comp.evaluate, f'Sheet!{ref}')
+            if formulas is not None:
+                rv_calls.append((dict(case, call='range-value'), formulas, (r0, c0, h, w), got))
+            # ---- oracle: the range shows at each position what the cell there shows
+            cells = tuple(tuple(run_impl(comp.evaluate, f'Sheet!{col(c0 + j)}{r0 + i}')
+                                for j in range(w)) for i in range(h))
+            own = im[0] == 'ok' and im[1][0]        # the range was given an array formula of its own
+            ocase = dict(call='range-over-array-formulas' if own else 'range-inside-array-formula',
+                         args=[f1, ref1, f2, ref2], range=ref)
+            ctx.count(('range-oracle', repr(ocase)), kind='range-oracle:' + ('own' if own else 'cells'))
+            if all(x[0] == 'ok' for row in cells for x in row):
+                want = ('ok', squeeze(tuple(tuple(x[1] for x in row) for row in cells)))
+                if got != want:
+                    ctx.violation(ocase, "a range over array formulas does not show its cells' own values"
+                                  if own else
+                                  "a range inside / across array formulas does not show its cells' values",
+                                  impl=got, expected=want[1])
+            else:
+                bad = [x for row in cells for x in row if x[0] != 'ok'][0]
+                ctx.violation(ocase, f"a member cell of an array formula raises {bad[1]}", impl=bad)
     if ctx.model and rf_calls:
         ms = [dec_res(x) for x in ctx.model.batch([('range_formula', [cells]) for _, cells, _ in rf_calls])]
         for (case, cells, im), m in zip(rf_calls, ms):
-            ctx.count(('range-formula', repr(case)), kind='range-formula:' + ('own' if im[1][0] else 'none'),
+            ctx.count(('range-formula', repr(case)),
+                      kind='range-formula:' + ('own' if im[0] == 'ok' and im[1][0] else 'none'),
                       sample=dict(case, impl=im))
             if not skip_model(m) and not same(m, im):
                 ctx.divergence(case, im, m, 'Model/CseCells.v range_formula = the formula _OpxRange.__new__ '
                                             'gives the range')
     if ctx.model and rv_calls:
         ms = [dec_res(x) for x in ctx.model.batch(
-            [('range_value', [h, w, enc_val(res)]) for _, res, h, w, _ in rv_calls])]
-        for (case, res, h, w, got), m in zip(rv_calls, ms):
+            [('sheet_range_value', [formulas] + list(key)) for _, formulas, key, _ in rv_calls])]
+        for (case, formulas, key, got), m in zip(rv_calls, ms):
             ctx.count(('range-value', repr(case)), kind='range-formula:value', sample=dict(case, impl=got))
             if m[0] == 'ok':
                 m = ('ok', sq_model(m[1]))
             if not skip_model(m) and not same(m, got):
-                ctx.divergence(case, got, m, 'Model/CseCells.v cse_range_value (h, w) result = evaluate(range) '
-                                             'for a range taken for an array formula\'s range')
+                ctx.divergence(case, got, m, 'Model/CseCells.v sheet_range_value (sheet_of formulas) = '
+                                             'evaluate(range) for any range around the array formulas')
 
 
 def sheet_side(comp, r0, c0, h, w):
